@@ -1,2 +1,71 @@
-//! Harnesses for property C04 (see /verif/properties.jsonl).
+//! Harnesses for property C04 (see /verif/properties.jsonl): the leap indicator is the one a
+//! strict majority of the selected sources report, ignoring sources whose status is unknown.
+use crate::common::*;
 use crate::stubs;
+use ntp_proto::verif::algorithm::kalman as kh;
+use ntp_proto::verif::time_types as tt;
+use ntp_proto::{NtpDuration, NtpLeapIndicator, NtpTimestamp};
+
+pub fn snap_with_leap(index: u64, leap: NtpLeapIndicator) -> kh::SnapH {
+    kh::snapshot_from_raw(
+        index,
+        [0.0, 0.0],
+        [[0.0, 0.0], [0.0, 0.0]],
+        tt::ts_from_raw(0),
+        0.0,
+        0.0,
+        None,
+        tt::dur_from_raw(0),
+        tt::dur_from_raw(0),
+        leap,
+        tt::ts_from_raw(0),
+    )
+}
+
+const N: usize = 6;
+
+// `vote_leap` on up to 6 selected sources with arbitrary leap values (selection never contains
+// `Unsynchronized`: asserted by c03_select).
+#[kani::proof]
+#[kani::unwind(8)]
+fn c04_vote() {
+    let n: usize = kani::any();
+    kani::assume(n <= N);
+    let codes: [u8; N] = kani::any();
+    let mut sel = kh::SnapVecH::with_capacity(N);
+    // independent recount
+    let mut cnt = [0usize; 4];
+    let mut i = 0;
+    while i < N {
+        kani::assume(codes[i] <= 3);
+        sel.push(snap_with_leap(i as u64 + 1, leap_from_code(codes[i])));
+        if i < n {
+            cnt[codes[i] as usize] += 1;
+        }
+        i += 1;
+    }
+    sel.truncate(n);
+    let got = kh::combiner::vote_leap_hook(&sel);
+    let known = n - cnt[3];
+    // strict majority among the sources whose leap status is known
+    let mut want: Option<u8> = None;
+    let mut k = 0u8;
+    while k < 3 {
+        if 2 * cnt[k as usize] > known {
+            assert!(want.is_none(), "two strict majorities are impossible");
+            want = Some(k);
+        }
+        k += 1;
+    }
+    match (got, want) {
+        (Some(l), Some(w)) => assert!(leap_code(l) == w, "the announced leap indicator is the majority's"),
+        (None, None) => {}
+        (Some(_), None) => assert!(false, "a leap indicator is announced without a strict majority"),
+        (None, Some(_)) => assert!(false, "a strict majority is ignored"),
+    }
+    kani::cover!(got == Some(NtpLeapIndicator::Leap61) && cnt[3] > 0 && 2 * cnt[1] <= n, "Leap61 wins only because unknown votes are ignored");
+    kani::cover!(got == Some(NtpLeapIndicator::Leap59) && n == 6, "Leap59 majority of six");
+    kani::cover!(got.is_none() && n == 4 && cnt[0] == 2 && cnt[1] == 2, "tie gives no announcement");
+    kani::cover!(got.is_none() && known == 0 && n > 0, "all unknown gives no announcement");
+    kani::cover!(got == Some(NtpLeapIndicator::NoWarning) && n == 1, "single source");
+}
